@@ -388,6 +388,15 @@ pub fn dispatch(op: &str, args: &[Val]) -> Val {
         None => (op, ""),
     };
     match name {
+        // same.<op>.<family> : a UTF-8 / typed / platform family next to the byte family of its encoding
+        "same" => {
+            let (n2, fam) = match suffix.find('.') {
+                Some(i) => (&suffix[..i], &suffix[i + 1..]),
+                None => (suffix, ""),
+            };
+            let bytefam = if fam.ends_with('w') || fam.starts_with('w') { "w" } else { "u" };
+            t2(dispatch(suffix, args), dispatch(&format!("{}.{}", n2, bytefam), args))
+        }
         // pair.<op> : the Unix byte family next to real std::path on the same arguments
         "pair" => t2(dispatch(&format!("{}.u", suffix), args), dispatch(&format!("{}.sd", suffix), args)),
         #[cfg(all(feature = "std", unix))]
